@@ -106,6 +106,15 @@ where
                 true => (v_node_index, u_node_index),
             };
 
+        // what an existing traversal-list entry for this pair must carry after the call:
+        // the minimum of the parallel edges on a multi-edge graph, otherwise the weight of
+        // the edge that stays stored (the old one for KeepFirst, the new one for KeepLast)
+        let adjacency_update = match (self.specs.multi_edges, &self.specs.edge_dedupe_strategy) {
+            (true, _) => AdjacencyUpdate::Min,
+            (false, EdgeDedupeStrategy::KeepLast) => AdjacencyUpdate::Replace,
+            (false, _) => AdjacencyUpdate::Keep,
+        };
+
         // add to the successors HashMap
         self.successors
             .entry(edge.u.clone())
@@ -125,6 +134,7 @@ where
             ordered_edge_v,
             edge.weight,
             edge_already_exists,
+            &adjacency_update,
         );
 
         // add to predecessors
@@ -144,6 +154,7 @@ where
                     ordered_edge_u,
                     edge.weight,
                     edge_already_exists,
+                    &adjacency_update,
                 );
             }
             false => {
@@ -155,13 +166,17 @@ where
                     .entry(v_node_index)
                     .or_default()
                     .insert(u_node_index);
-                add_to_adjacency_vec(
-                    &mut self.successors_vec,
-                    ordered_edge_v,
-                    ordered_edge_u,
-                    edge.weight,
-                    edge_already_exists,
-                );
+                // a self-loop has only one orientation; it gets one entry, not two
+                if u_node_index != v_node_index {
+                    add_to_adjacency_vec(
+                        &mut self.successors_vec,
+                        ordered_edge_v,
+                        ordered_edge_u,
+                        edge.weight,
+                        edge_already_exists,
+                        &adjacency_update,
+                    );
+                }
             }
         }
 
@@ -460,12 +475,19 @@ where
 /**
 Adds a node to an adjacency (successor or predecessor) vector.
  */
+enum AdjacencyUpdate {
+    Keep,
+    Min,
+    Replace,
+}
+
 fn add_to_adjacency_vec(
     adjacency_vec: &mut Vec<Vec<AdjacentNode>>,
     u_node_index: usize,
     v_node_index: usize,
     weight: f64,
     edge_already_exists: bool,
+    update: &AdjacencyUpdate,
 ) {
     match edge_already_exists {
         true => {
@@ -473,7 +495,12 @@ fn add_to_adjacency_vec(
                 .iter()
                 .position(|succ| succ.node_index == v_node_index)
                 .unwrap();
-            if weight < adjacency_vec[u_node_index][index].weight {
+            let replace = match update {
+                AdjacencyUpdate::Keep => false,
+                AdjacencyUpdate::Min => weight < adjacency_vec[u_node_index][index].weight,
+                AdjacencyUpdate::Replace => true,
+            };
+            if replace {
                 adjacency_vec[u_node_index][index] = AdjacentNode::new(v_node_index, weight);
             }
         }
